@@ -432,7 +432,7 @@ namespace cds { namespace intrusive {
                 size_t nLoadFactor        ///< Load factor
                 )
                 : m_nLoadFactor( nLoadFactor > 0 ? nLoadFactor : (size_t) 1 )
-                , m_nCapacity( cds::beans::ceil2( nItemCount / m_nLoadFactor ))
+                , m_nCapacity( nItemCount / m_nLoadFactor > 2 ? cds::beans::ceil2( nItemCount / m_nLoadFactor ) : (size_t) 2 )   // the split-list starts with 2 buckets
                 , m_nAuxNodeAllocated( 0 )
             {
                 // m_nCapacity must be power of 2
